@@ -37,7 +37,7 @@ Proof.
   rewrite own_eq. destruct (tskip t); [cbn; lia|].
   pose proof (count_msgs_nonneg (own_msgs s t)) as (H1 & H2 & H3).
   cbn [passes failures skips exceptions].
-  destruct (has_skip (own_msgs s t)), (own_death s t); lia.
+  destruct (has_skip (own_msgs s t)), (abnormal (own_msgs s t) (own_death s t)); lia.
 Qed.
 
 Definition own_list (n : node) : list cnt := map (fun st => own (fst st) (snd st)) (tests_of n).
@@ -121,7 +121,7 @@ Proof.
   - cbn. intros [H|[H|[H|[]]]]; inversion H; auto.
   - cbn [In]. intros [H|H]; [inversion H; auto|].
     apply in_app_or in H. destruct H as [H|H].
-    + destruct (own_death s t); [cbn in H; destruct H as [H|[]]; discriminate|].
+    + destruct (abnormal (own_msgs s t) (own_death s t)); [cbn in H; destruct H as [H|[]]; discriminate|].
       destruct (has_skip (own_msgs s t)); cbn in H; [destruct H as [H|[]]; discriminate | destruct H].
     + cbn in H. destruct H as [H|[H|[]]]; discriminate.
 Qed.
@@ -195,15 +195,15 @@ Qed.
 Lemma incomplete_names_producer n path tot0 cr sg :
   In (EIncomplete cr sg) (spec_events path tot0 n) ->
   exists s t, In (s, t) (tests_of n) /\ hd_error cr = Some (tid t) /\ tskip t = false /\
-              exists d, own_death s t = Some d /\ sg = sig_text (Some d).
+              abnormal (own_msgs s t) (own_death s t) = true /\ sg = sig_text (own_death s t).
 Proof.
   intros H. destruct (in_spec_events n path tot0 (EIncomplete cr sg) eq_refl H) as (s & t & path' & H1 & H2).
   exists s, t. split; [exact H1|]. unfold spec_test in H2. destruct (tskip t) eqn:Hsk.
   - cbn in H2. destruct H2 as [H2|[H2|[H2|[]]]]; discriminate.
   - cbn [In] in H2. destruct H2 as [H2|H2]; [discriminate|].
     apply in_app_or in H2. destruct H2 as [H2|H2].
-    + destruct (own_death s t) as [d|].
-      * cbn in H2. destruct H2 as [H2|[]]. inversion H2; subst. cbn. repeat split; auto. exists d. auto.
+    + destruct (abnormal (own_msgs s t) (own_death s t)) eqn:Hab.
+      * cbn in H2. destruct H2 as [H2|[]]. inversion H2; subst. cbn. repeat split; auto.
       * destruct (has_skip (own_msgs s t)); cbn in H2; [destruct H2 as [H2|[]]; discriminate | destruct H2].
     + cbn in H2. destruct H2 as [H2|[H2|[]]]; discriminate.
 Qed.
@@ -273,12 +273,17 @@ Proof. intros H s t Hin. destruct (H s t Hin) as [H1 _]. split; [exact H1 | exac
 (* ------------------------------------------------------------------------------------ *)
 (* decidable form of the hypotheses (used by the Examples and by the harness to say which
    generated scenarios lie inside the theorems' premises) *)
-Definition is_compl_msg (x : msg) : bool := match x with MCompletion => true | _ => false end.
 Definition wf_testb (t : test) : bool :=
   forallb user_act (tsetup t) && forallb user_act (tbody t) && forallb user_act (tteardown t).
 Definition regularb (s : suiteinfo) (t : test) : bool :=
   match own_death s t with
-  | Some _ => negb (has_skip (own_msgs s t)) && negb (existsb is_compl_msg (own_msgs s t))
+  | Some _ =>
+      if abnormal (own_msgs s t) (own_death s t)
+      then negb (has_skip (own_msgs s t)) && negb (existsb is_compl_msg (own_msgs s t))
+      else match rev (own_msgs s t) with
+           | MCompletion :: r => negb (existsb is_compl_msg (rev r))
+           | _ => false
+           end
   | None => true
   end.
 Definition fitsb (cap : nat) (s : suiteinfo) (t : test) : bool := Nat.leb (length (own_msgs s t)) cap.
@@ -312,8 +317,13 @@ Proof.
   - unfold wf_testb in Hw. apply andb_prop in Hw; tauto.
   - unfold fits. apply Nat.leb_le. exact Hf.
   - unfold regular, regularb in *. destruct (own_death s t); [|exact I].
-    apply andb_prop in Hr; destruct Hr as [H1 H2]. apply negb_true_iff in H1, H2.
-    split; [exact H1 | apply no_compl_b; exact H2].
+    destruct (abnormal (own_msgs s t) (Some d)).
+    + apply andb_prop in Hr; destruct Hr as [H1 H2]. apply negb_true_iff in H1, H2.
+      split; [exact H1 | apply no_compl_b; exact H2].
+    + destruct (rev (own_msgs s t)) as [|x r] eqn:Hrev; [discriminate|].
+      destruct x; try discriminate. apply negb_true_iff in Hr.
+      exists (rev r). split; [|apply no_compl_b; exact Hr].
+      rewrite <- (rev_involutive (own_msgs s t)), Hrev. reflexivity.
   - destruct m; [exact I|]. apply andb_prop in Hm; destruct Hm as [H1 H2].
     split; [destruct (own_death s t); [discriminate | reflexivity] | exact H2].
 Qed.
@@ -322,4 +332,400 @@ Lemma ok_treeb_ok m cap n : ok_treeb m cap n = true -> ok_tree m cap n.
 Proof.
   unfold ok_treeb, ok_tree. rewrite forallb_forall. intros H s t Hin.
   apply test_okb_ok. exact (H (s, t) Hin).
+Qed.
+
+(* ------------------------------------------------------------------------------------ *)
+(* C02: dying tests *)
+Lemma exec_dies_at_end f l d : snd (exec f (l ++ [Die d])) <> None.
+Proof.
+  rewrite exec_app. destruct (exec f l) as [[f1 m1] [d1|]]; cbn; discriminate.
+Qed.
+
+Lemma killed_dies s t k d : tkill t = Some (k, d) -> own_death s t <> None.
+Proof. intros H. unfold own_death, test_steps. rewrite H. apply exec_dies_at_end. Qed.
+
+Lemma firstn_app_le {A} k (l1 l2 : list A) : (k <= length l1)%nat -> firstn k (l1 ++ l2) = firstn k l1.
+Proof. intros H. rewrite firstn_app. replace (k - length l1)%nat with 0%nat by lia. cbn. apply app_nil_r. Qed.
+
+(* killed at any point up to the mock tally: the completion notice was never sent *)
+Lemma killed_before_completion s t k d :
+  wf_test t -> tkill t = Some (k, d) -> (k <= length (child_steps s t))%nat -> no_compl (own_msgs s t).
+Proof.
+  intros Hwf Hk Hle. unfold own_msgs, test_steps. rewrite Hk. unfold full_steps.
+  rewrite firstn_app_le by exact Hle. apply exec_no_compl.
+  rewrite forallb_app. cbn [forallb is_complete negb andb]. rewrite andb_true_r.
+  apply firstn_forallb. apply child_steps_no_complete. exact Hwf.
+Qed.
+
+(* test code never sends an `exception` record (only the C++ build's catch blocks do) *)
+Lemma repeat_fail_exc n : exceptions (count_msgs (repeat MFail n)) = 0.
+Proof.
+  induction n as [|n IH]; [reflexivity|]. cbn [repeat]. rewrite count_msgs_cons.
+  unfold cadd; cbn [exceptions]. lia.
+Qed.
+
+Lemma step_no_exception f a : exceptions (count_msgs (snd (fst (step f a)))) = 0.
+Proof.
+  destruct a; cbn [step fst snd]; try reflexivity.
+  - destruct b; reflexivity.
+  - destruct (figs f <=? k); reflexivity.
+  - destruct (mode f); reflexivity.
+  - destruct (glob f =? v); reflexivity.
+  - apply repeat_fail_exc.
+Qed.
+
+Lemma exec_no_exception l : forall f, exceptions (count_msgs (snd (fst (exec f l)))) = 0.
+Proof.
+  induction l as [|a l IH]; intros f; [reflexivity|]. cbn [exec].
+  pose proof (step_no_exception f a) as Hs.
+  destruct (step f a) as [[f1 m1] [d|]]; cbn [fst snd] in *; [exact Hs|].
+  specialize (IH f1). destruct (exec f1 l) as [[f2 m2] d2]; cbn [fst snd] in *.
+  rewrite count_msgs_app. unfold cadd; cbn [exceptions]. lia.
+Qed.
+
+(* a test that dies (and had not called skip_test()) is exactly one exception, and what it
+   delivered before dying is counted *)
+Lemma dying_test_own s t :
+  tskip t = false -> abnormal (own_msgs s t) (own_death s t) = true ->
+  exceptions (own s t) = 1 /\
+  passes (own s t) = passes (count_msgs (own_msgs s t)) /\
+  failures (own s t) = failures (count_msgs (own_msgs s t)).
+Proof.
+  intros Hsk Hd. rewrite own_eq, Hsk. cbn [passes failures exceptions].
+  rewrite Hd. unfold own_msgs. rewrite exec_no_exception. auto.
+Qed.
+
+(* results delivered before the point of death are a prefix of what the test delivers when
+   it is left alone *)
+Lemma exec_cut_prefix l : forall f k d,
+  exists rest, snd (fst (exec f l)) = snd (fst (exec f (firstn k l ++ [Die d]))) ++ rest.
+Proof.
+  induction l as [|a l IH]; intros f k d.
+  - destruct k; cbn; exists []; reflexivity.
+  - destruct k as [|k].
+    + cbn [firstn app]. cbn [exec step]. cbn [fst snd app]. eexists; reflexivity.
+    + cbn [firstn app exec]. destruct (step f a) as [[f1 m1] [d1|]]; cbn [fst snd].
+      * exists []. rewrite app_nil_r. reflexivity.
+      * destruct (IH f1 k d) as [rest Hr].
+        destruct (exec f1 l) as [[f2 m2] d2]; destruct (exec f1 (firstn k l ++ [Die d])) as [[f3 m3] d3].
+        cbn [fst snd] in *. exists rest. rewrite Hr, app_assoc. reflexivity.
+Qed.
+
+Definition with_kill (t : test) (k : nat) (d : death) : test :=
+  mktest (tid t) (tskip t) (tctx_setup t) (tctx_teardown t) (tsetup t) (tbody t) (tteardown t) (Some (k, d)).
+
+Lemma delivered_is_prefix s t k d :
+  tkill t = None ->
+  exists rest, own_msgs s t = own_msgs s (with_kill t k d) ++ rest.
+Proof.
+  intros Hk. unfold own_msgs, test_steps. rewrite Hk. cbn [tkill with_kill].
+  change (full_steps s (with_kill t k d)) with (full_steps s t).
+  apply exec_cut_prefix.
+Qed.
+
+(* killed by a signal at any point, or gone before the completion notice: abnormal *)
+Lemma signal_is_abnormal m sg : abnormal m (Some (Signal sg)) = true.
+Proof. reflexivity. Qed.
+
+Lemma exit_before_completion_is_abnormal m code : no_compl m -> abnormal m (Some (Exit code)) = true.
+Proof.
+  intros Hn. cbn. apply negb_true_iff. destruct (existsb is_compl_msg m) eqn:H; [|reflexivity].
+  exfalso. apply existsb_exists in H. destruct H as (x & Hx & Hc). destruct x; try discriminate. exact (Hn Hx).
+Qed.
+
+(* a dying test anywhere makes the verdict failure *)
+Lemma dying_test_fails_run n s t :
+  In (s, t) (tests_of n) -> tskip t = false -> abnormal (own_msgs s t) (own_death s t) = true -> ~ all_good n.
+Proof.
+  intros Hin Hsk Hd Hg. rewrite all_good_each in Hg. destruct (Hg s t Hin) as [_ He].
+  destruct (dying_test_own s t Hsk Hd) as [H1 _]. lia.
+Qed.
+
+(* ------------------------------------------------------------------------------------ *)
+(* statements used by the C04 / C13 / C17 files *)
+Lemma order_independent rk cap n1 n2 s t d1 cl1 d2 cl2 :
+  In rk builtin_reporters -> (1 <= cap)%nat ->
+  is_suite n1 -> ok_tree Forked cap n1 -> unique_names n1 -> In (s, t) (tests_of n1) ->
+  is_suite n2 -> ok_tree Forked cap n2 -> unique_names n2 -> In (s, t) (tests_of n2) ->
+  forall p1 p2 v1 v2,
+    run_suite rk verdict_suite Forked cap n1 = Finished v1 p1 ->
+    run_suite rk verdict_suite Forked cap n2 = Finished v2 p2 ->
+    In (ETestDone (tid t) d1 cl1) (out p1) -> In (ETestDone (tid t) d2 cl2) (out p2) ->
+    d1 = own s t /\ d2 = own s t /\ cl1 = cl2.
+Proof.
+  intros Hrk Hcap Hs1 Hok1 Hu1 Hin1 Hs2 Hok2 Hu2 Hin2 p1 p2 v1 v2 H1 H2 E1 E2.
+  destruct (run_suite_spec rk verdict_suite Forked cap n1 (builtin_rk_folds rk Hrk) Hcap Hs1 Hok1) as (f1 & R1).
+  destruct (run_suite_spec rk verdict_suite Forked cap n2 (builtin_rk_folds rk Hrk) Hcap Hs2 Hok2) as (f2 & R2).
+  rewrite R1 in H1. rewrite R2 in H2. inversion H1; subst. inversion H2; subst. cbn [out] in *.
+  apply (credited_exactly_own n1 [] czero s t d1 cl1 Hs1 Hu1 Hin1) in E1.
+  apply (credited_exactly_own n2 [] czero s t d2 cl2 Hs2 Hu2 Hin2) in E2.
+  destruct E1 as [-> ->], E2 as [-> ->]. auto.
+Qed.
+
+Lemma forked_inprocess_agree rk cap n :
+  In rk builtin_reporters -> (1 <= cap)%nat -> is_suite n -> ok_tree InProcess cap n ->
+  exists v pf pi,
+    run_suite rk verdict_suite Forked cap n = Finished v pf /\
+    run_suite rk verdict_suite InProcess cap n = Finished v pi /\
+    out pf = out pi /\ tot pf = tot pi /\ c pf = c pi /\ out pf = spec_events [] czero n.
+Proof.
+  intros Hrk Hcap Hs Hok.
+  destruct (run_suite_spec rk verdict_suite Forked cap n (builtin_rk_folds rk Hrk) Hcap Hs (ok_tree_weaken cap n Hok)) as (f1 & R1).
+  destruct (run_suite_spec rk verdict_suite InProcess cap n (builtin_rk_folds rk Hrk) Hcap Hs Hok) as (f2 & R2).
+  do 3 eexists. split; [exact R1|]. split; [exact R2|]. cbn. auto.
+Qed.
+
+Lemma reporters_agree rk1 rk2 m cap n :
+  In rk1 builtin_reporters -> In rk2 builtin_reporters ->
+  (1 <= cap)%nat -> is_suite n -> ok_tree m cap n ->
+  exists v p1 p2,
+    run_suite rk1 verdict_suite m cap n = Finished v p1 /\
+    run_suite rk2 verdict_suite m cap n = Finished v p2 /\
+    tot p1 = tot p2 /\ c p1 = c p2 /\ out p1 = out p2.
+Proof.
+  intros H1 H2 Hcap Hs Hok.
+  destruct (run_suite_spec rk1 verdict_suite m cap n (builtin_rk_folds rk1 H1) Hcap Hs Hok) as (f1 & R1).
+  destruct (run_suite_spec rk2 verdict_suite m cap n (builtin_rk_folds rk2 H2) Hcap Hs Hok) as (f2 & R2).
+  do 3 eexists. split; [exact R1|]. split; [exact R2|]. cbn. auto.
+Qed.
+
+(* ------------------------------------------------------------------------------------ *)
+(* C18: a test that sends more records than the pipe holds *)
+Lemma deliver_overflow cap m :
+  (cap < length m)%nat -> deliver cap [] m = (firstn cap m, Some (Signal sigpipe)).
+Proof.
+  intros H. unfold deliver. cbn [length app]. rewrite Nat.sub_0_r.
+  assert (Hl : (length m <=? cap)%nat = false) by (apply Nat.leb_gt; exact H).
+  rewrite Hl. reflexivity.
+Qed.
+
+(* the records of a test process: anything but a completion notice, then at most one *)
+Lemma exec_steps_shape l f :
+  forallb (fun a => negb (is_complete a)) l = true ->
+  forall tail, Forall (fun a => a = AComplete \/ exists d, a = Die d) tail ->
+  exists m', no_compl m' /\
+    (snd (fst (exec f (l ++ tail))) = m' \/ exists r, snd (fst (exec f (l ++ tail))) = m' ++ MCompletion :: r /\ Forall (fun x => x = MCompletion) r).
+Proof.
+  intros Hl tail Ht. rewrite exec_app.
+  pose proof (exec_no_compl l f Hl) as Hn.
+  destruct (exec f l) as [[f1 m1] [d1|]]; cbn [fst snd] in *.
+  - exists m1. auto.
+  - revert f1. induction Ht as [|a tail Ha Ht IH]; intros f1.
+    + exists m1. cbn. rewrite app_nil_r. auto.
+    + destruct Ha as [->|[d ->]].
+      * cbn [exec step]. specialize (IH f1).
+        destruct (exec f1 tail) as [[f2 m2] d2] eqn:He. cbn [fst snd] in *.
+        exists m1. split; [exact Hn|]. right.
+        (* everything after is completions only *)
+        assert (Hm2 : Forall (fun x => x = MCompletion) m2).
+        { clear IH. revert f1 f2 m2 d2 He. induction Ht as [|b tail Hb Ht IHt]; intros f1 f2 m2 d2 He.
+          - cbn in He. inversion He; subst. constructor.
+          - destruct Hb as [->|[d ->]].
+            + cbn [exec step] in He. destruct (exec f1 tail) as [[f3 m3] d3] eqn:He3.
+              inversion He; subst. constructor; [reflexivity|]. cbn [app]. eapply IHt; exact He3.
+            + cbn in He. inversion He; subst. constructor. }
+        exists m2. cbn [app]. auto.
+      * cbn. exists m1. rewrite app_nil_r. auto.
+Qed.
+
+Lemma own_msgs_shape s t :
+  wf_test t ->
+  exists m', no_compl m' /\
+    (own_msgs s t = m' \/ exists r, own_msgs s t = m' ++ MCompletion :: r /\ Forall (fun x => x = MCompletion) r).
+Proof.
+  intros Hwf. unfold own_msgs, test_steps, full_steps.
+  pose proof (child_steps_no_complete s t Hwf) as Hc.
+  destruct (tkill t) as [[k d]|].
+  - destruct (Nat.le_gt_cases k (length (child_steps s t))) as [Hle|Hgt].
+    + rewrite firstn_app_le by exact Hle.
+      apply (exec_steps_shape (firstn k (child_steps s t)) fw_init (firstn_forallb _ k _ Hc) [Die d]).
+      constructor; [right; eexists; reflexivity | constructor].
+    + rewrite firstn_all2 by (rewrite app_length; cbn [length]; lia).
+      rewrite <- app_assoc.
+      apply (exec_steps_shape (child_steps s t) fw_init Hc ([AComplete] ++ [Die d])).
+      constructor; [left; reflexivity|]. constructor; [right; eexists; reflexivity | constructor].
+  - apply (exec_steps_shape (child_steps s t) fw_init Hc [AComplete]).
+    constructor; [left; reflexivity | constructor].
+Qed.
+
+Lemma in_firstn {A} (x : A) k l : In x (firstn k l) -> In x l.
+Proof.
+  revert k; induction l as [|a l IH]; intros k; destruct k as [|k]; cbn [firstn].
+  - intros [].
+  - intros [].
+  - intros [].
+  - intros [->|Hin]; [left; reflexivity | right; exact (IH k Hin)].
+Qed.
+
+Lemma firstn_no_compl k m : no_compl m -> no_compl (firstn k m).
+Proof. unfold no_compl. intros H Hin. apply H. eapply in_firstn; exact Hin. Qed.
+
+(* the overflowing test: the writer gets SIGPIPE; the parent counts the records that fitted
+   (a prefix), reports one exception, and leaves the pipe empty for the next test *)
+Lemma run_test_forked_overflow cap s t p :
+  wf_test t -> tskip t = false -> (1 <= cap)%nat -> (cap < length (own_msgs s t))%nat -> good p ->
+  let dm := firstn cap (own_msgs s t) in
+  no_compl dm -> has_skip dm = false ->
+  exists evs,
+    run_test_forked cap s t p =
+    mkp (cadd (c p) (cadd (count_msgs dm) (mkcnt 0 0 0 1))) (tot p) (crumb p) [] (pfw p) (evs ++ out p).
+Proof.
+  intros Hwf Hsk Hcap Hov [Hpipe Hfw] dm Hn Hs.
+  unfold run_test_forked. rewrite Hsk.
+  unfold start_test, push, emit. cbn [pipe c tot crumb pfw out]. rewrite Hpipe.
+  destruct (exec_from_any (pfw p) s t Hfw) as (Hm & Hd & _).
+  destruct (exec (pfw p) (test_steps s t)) as [[f' m] d] eqn:He. cbn [fst snd] in *. subst m.
+  rewrite (deliver_overflow cap _ Hov). fold dm.
+  unfold set_pipe. cbn [pipe c tot crumb pfw out].
+  erewrite (finish_test_nocompl (tid t) _ _ dm (crumb p)); [ | exact Hn | reflexivity | reflexivity ].
+  rewrite Hs. cbn [c tot crumb pipe pfw out].
+  assert (Hc : credit dm = count_msgs dm).
+  { unfold credit, skip_cnt. rewrite Hs. cbn [negb andb]. cnt. }
+  rewrite Hc. eexists (_ :: _ :: _ :: _ :: nil). cbn [app]. reflexivity.
+Qed.
+
+(* when the only record that does not fit is the end-of-test marker (or more), what fitted
+   contains no marker *)
+Lemma overflow_prefix_no_compl cap s t :
+  wf_test t -> (cap < length (own_msgs s t))%nat ->
+  (forall m' r, own_msgs s t = m' ++ MCompletion :: r -> no_compl m' -> (cap <= length m')%nat) ->
+  no_compl (firstn cap (own_msgs s t)).
+Proof.
+  intros Hwf Hov Hlast. destruct (own_msgs_shape s t Hwf) as (m' & Hn & [Hm|(r & Hm & _)]).
+  - rewrite Hm. apply firstn_no_compl. exact Hn.
+  - specialize (Hlast m' r Hm Hn). rewrite Hm. rewrite firstn_app_le by exact Hlast.
+    apply firstn_no_compl. exact Hn.
+Qed.
+
+(* ------------------------------------------------------------------------------------ *)
+(* C08: what runs around a test, in which order *)
+Definition plain_act (a : act) : bool :=
+  match a with AReset | ATally | AComplete | Mark _ | Die _ => false | _ => true end.
+Definition plain (l : list act) : Prop := forallb plain_act l = true.
+
+Lemma trace_app f l1 l2 :
+  trace f (l1 ++ l2) =
+  match exec f l1 with
+  | (_, _, Some _) => trace f l1
+  | (f1, _, None) => trace f l1 ++ trace f1 l2
+  end.
+Proof.
+  revert f; induction l1 as [|a l1 IH]; intros f; cbn [app trace exec]; [reflexivity|].
+  destruct (step f a) as [[f1 m1] [d|]]; [reflexivity|].
+  rewrite IH. destruct (exec f1 l1) as [[f2 m2] [d|]]; [reflexivity | rewrite app_assoc; reflexivity].
+Qed.
+
+Lemma plain_runs_silently l : forall f, plain l -> trace f l = [] /\ snd (exec f l) = None.
+Proof.
+  unfold plain. induction l as [|a l IH]; intros f H; [split; reflexivity|].
+  cbn [forallb] in H. apply andb_prop in H; destruct H as [Ha Hl].
+  cbn [trace exec].
+  assert (Hs : snd (step f a) = None /\ tev_of a = []) by (destruct a; cbn in *; try discriminate; auto).
+  destruct Hs as [Hs1 Hs2]. destruct (step f a) as [[f1 m1] d]; cbn [snd] in Hs1; subst d.
+  destruct (IH f1 Hl) as [H1 H2]. rewrite Hs2, H1. split; [reflexivity|].
+  destruct (exec f1 l) as [[f2 m2] d2]; cbn [snd] in *; exact H2.
+Qed.
+
+Definition setup_tev (s : suiteinfo) (t : test) : list tev :=
+  if s_has_setup s then [TvPhase (PhSuiteSetup (sid s))] else if tctx_setup t then [TvPhase PhSetup] else [].
+Definition teardown_tev (s : suiteinfo) (t : test) : list tev :=
+  if s_has_teardown s then [TvPhase (PhSuiteTeardown (sid s))] else if tctx_teardown t then [TvPhase PhTeardown] else [].
+
+Lemma trace_cons_silent f a l :
+  plain_act a = true -> trace f (a :: l) = trace (fst (fst (step f a))) l.
+Proof.
+  intros H. cbn [trace].
+  assert (Hs : snd (step f a) = None /\ tev_of a = []) by (destruct a; cbn in *; try discriminate; auto).
+  destruct Hs as [Hs1 Hs2]. destruct (step f a) as [[f1 m1] d]; cbn [fst snd] in *; subst d. rewrite Hs2. reflexivity.
+Qed.
+
+(* setup, body, teardown and the tally run once each, in this order, in one process, also
+   when checks fail: the applicable fixture is the suite's if it has one, else the context's *)
+Lemma trace_skip_plain l rest f : plain l -> exists f', trace f (l ++ rest) = trace f' rest.
+Proof.
+  intros H. rewrite trace_app. destruct (plain_runs_silently l f H) as [H1 H2].
+  destruct (exec f l) as [[f1 m1] d1]; cbn [snd] in H2; subst d1. rewrite H1. exists f1. reflexivity.
+Qed.
+
+Lemma test_trace s t f :
+  plain (tsetup t) -> plain (tbody t) -> plain (tteardown t) -> tkill t = None ->
+  trace f (test_steps s t) = setup_tev s t ++ [TvPhase PhBody] ++ teardown_tev s t ++ [TvTally].
+Proof.
+  intros Hs Hb Ht Hk. unfold test_steps. rewrite Hk. unfold full_steps, child_steps.
+  assert (T4 : forall g, trace g ([ATally] ++ [AComplete]) = [TvTally]) by (intros; reflexivity).
+  assert (T3 : forall g, trace g (teardown_steps s t ++ [ATally] ++ [AComplete]) = teardown_tev s t ++ [TvTally]).
+  { intros g. unfold teardown_steps, teardown_tev.
+    destruct (s_has_teardown s); [|destruct (tctx_teardown t)].
+    - change ((Mark (PhSuiteTeardown (sid s)) :: tteardown t) ++ [ATally] ++ [AComplete])
+        with (Mark (PhSuiteTeardown (sid s)) :: (tteardown t ++ [ATally] ++ [AComplete])).
+      cbn [trace step tev_of]. destruct (trace_skip_plain (tteardown t) ([ATally] ++ [AComplete]) g Ht) as [g' Hg].
+      rewrite Hg, T4. reflexivity.
+    - change ((Mark PhTeardown :: tteardown t) ++ [ATally] ++ [AComplete])
+        with (Mark PhTeardown :: (tteardown t ++ [ATally] ++ [AComplete])).
+      cbn [trace step tev_of]. destruct (trace_skip_plain (tteardown t) ([ATally] ++ [AComplete]) g Ht) as [g' Hg].
+      rewrite Hg, T4. reflexivity.
+    - cbn [app]. apply T4. }
+  assert (T2 : forall g, trace g ((Mark PhBody :: tbody t) ++ teardown_steps s t ++ [ATally] ++ [AComplete]) =
+                         [TvPhase PhBody] ++ teardown_tev s t ++ [TvTally]).
+  { intros g.
+    change ((Mark PhBody :: tbody t) ++ teardown_steps s t ++ [ATally] ++ [AComplete])
+      with (Mark PhBody :: (tbody t ++ teardown_steps s t ++ [ATally] ++ [AComplete])).
+    cbn [trace step tev_of].
+    destruct (trace_skip_plain (tbody t) (teardown_steps s t ++ [ATally] ++ [AComplete]) g Hb) as [g' Hg].
+    rewrite Hg, T3. reflexivity. }
+  assert (T1 : forall g, trace g (setup_steps s t ++ (Mark PhBody :: tbody t) ++ teardown_steps s t ++ [ATally] ++ [AComplete]) =
+                         setup_tev s t ++ [TvPhase PhBody] ++ teardown_tev s t ++ [TvTally]).
+  { intros g. unfold setup_steps, setup_tev.
+    destruct (s_has_setup s); [|destruct (tctx_setup t)].
+    - match goal with |- trace g ((Mark ?ph :: ?l) ++ ?r) = _ => change ((Mark ph :: l) ++ r) with (Mark ph :: (l ++ r)) end.
+      cbn [trace step tev_of]. 
+      destruct (trace_skip_plain (tsetup t) ((Mark PhBody :: tbody t) ++ teardown_steps s t ++ [ATally] ++ [AComplete]) g Hs) as [g' Hg].
+      rewrite Hg, T2. reflexivity.
+    - match goal with |- trace g ((Mark ?ph :: ?l) ++ ?r) = _ => change ((Mark ph :: l) ++ r) with (Mark ph :: (l ++ r)) end.
+      cbn [trace step tev_of].
+      destruct (trace_skip_plain (tsetup t) ((Mark PhBody :: tbody t) ++ teardown_steps s t ++ [ATally] ++ [AComplete]) g Hs) as [g' Hg].
+      rewrite Hg, T2. reflexivity.
+    - cbn [app]. apply T2. }
+  rewrite <- !app_assoc.
+  change ([AReset] ++ setup_steps s t ++ (Mark PhBody :: tbody t) ++ teardown_steps s t ++ [ATally] ++ [AComplete])
+    with (AReset :: (setup_steps s t ++ (Mark PhBody :: tbody t) ++ teardown_steps s t ++ [ATally] ++ [AComplete])).
+  cbn [trace step tev_of]. cbn [app]. apply T1.
+Qed.
+
+(* a process that dies shows a prefix of that sequence: nothing after the point of death *)
+Lemma trace_cut_prefix l : forall f k d,
+  exists rest, trace f l = trace f (firstn k l ++ [Die d]) ++ rest.
+Proof.
+  induction l as [|a l IH]; intros f k d.
+  - destruct k; cbn; exists []; reflexivity.
+  - destruct k as [|k].
+    + cbn [firstn app]. cbn [trace step tev_of app]. eexists; reflexivity.
+    + cbn [firstn app trace]. destruct (step f a) as [[f1 m1] [d1|]].
+      * exists []. rewrite app_nil_r. reflexivity.
+      * destruct (IH f1 k d) as [rest Hr]. exists rest. rewrite Hr, app_assoc. reflexivity.
+Qed.
+
+(* an xEnsure test runs none of its code: the run does not depend on its scripts *)
+Lemma xensure_runs_nothing m cap s t t' p :
+  tid t = tid t' -> tskip t = true -> tskip t' = true -> run_test m cap s t p = run_test m cap s t' p.
+Proof.
+  intros Hid H1 H2. destruct m; unfold run_test, run_test_forked, run_test_inproc; rewrite H1, H2, Hid; reflexivity.
+Qed.
+
+(* a suite's fixtures bracket each of its sub-suites exactly once (events newest first):
+   the events of the sub-suite pass are, per sub-suite in order,
+   [suite setup] [the sub-suite's whole run] [suite teardown] *)
+Definition bracketed (s : suiteinfo) (rec : node -> list event) (n' : node) : list event :=
+  match n' with
+  | Sn _ _ => (if s_has_teardown s then [EFixture (sid s) true] else []) ++ rec n'
+              ++ (if s_has_setup s then [EFixture (sid s) false] else [])
+  | Tn _ => []
+  end.
+
+Lemma subs_events_brackets s rec l :
+  subs_events s rec l = concat (rev (map (bracketed s rec) l)).
+Proof.
+  induction l as [|n l IH]; [reflexivity|].
+  cbn [subs_events map rev]. rewrite concat_app. cbn [concat]. rewrite app_nil_r, <- IH.
+  destruct n; cbn [bracketed]; [rewrite app_nil_r|]; reflexivity.
 Qed.
